@@ -974,31 +974,41 @@ Section Obs.
   Qed.
 
   (* the strict-sorted records do not depend on the record order *)
-  Lemma n_vols_strict_perm smax recs recs' : Permutation recs recs' -> NoDup (map keys recs) ->
+  Lemma n_vols_strict_stage1 smax recs recs' : stage1 recs = stage1 recs' ->
     n_vols true smax recs = n_vols true smax recs'.
-  Proof. intros P N. rewrite !n_vols_strict. now rewrite (stage1_perm_invariant recs recs' P N). Qed.
+  Proof. intros HS. rewrite !n_vols_strict. now rewrite HS. Qed.
 
-  Lemma n_used_strict_perm smax recs recs' : Permutation recs recs' -> NoDup (map keys recs) ->
+  Lemma n_used_strict_stage1 smax recs recs' : Permutation recs recs' -> stage1 recs = stage1 recs' ->
     n_used true smax recs = n_used true smax recs'.
   Proof.
-    intros P N. unfold n_used. now rewrite (n_vols_strict_perm smax recs recs' P N), (n_slices_perm recs recs' P).
+    intros P HS. unfold n_used. now rewrite (n_vols_strict_stage1 smax recs recs' HS), (n_slices_perm recs recs' P).
   Qed.
 
-  Lemma strict_records_perm smax recs recs' :
-    Permutation recs recs' -> NoDup (map keys recs) ->
+  Lemma strict_records_stage1 smax recs recs' :
+    Permutation recs recs' -> stage1 recs = stage1 recs' ->
     option_map (fun idx => select dummy idx recs) (sorted_slice_indices true smax recs) =
     option_map (fun idx => select dummy idx recs') (sorted_slice_indices true smax recs').
   Proof.
-    intros P N. unfold sorted_slice_indices.
-    rewrite <- (n_used_strict_perm smax recs recs' P N).
+    intros P HS. unfold sorted_slice_indices.
+    rewrite <- (n_used_strict_stage1 smax recs recs' P HS).
     pose proof (strict_records smax recs) as R. pose proof (strict_records smax recs') as R'.
-    rewrite <- (stage1_perm_invariant recs recs' P N) in R'.
+    rewrite <- HS in R'.
     destruct (strict_sort_order smax recs) as [o|], (strict_sort_order smax recs') as [o'|];
       cbn [option_map] in R, R'; try congruence.
     - destruct (n_used true smax recs) as [n|]; [|reflexivity]. cbn [option_map].
       rewrite !select_firstn. rewrite <- R' in R. inversion R as [R1]. now rewrite R1.
     - now destruct (n_used true smax recs).
   Qed.
+
+  Lemma n_vols_strict_perm smax recs recs' : Permutation recs recs' -> NoDup (map keys recs) ->
+    n_vols true smax recs = n_vols true smax recs'.
+  Proof. intros P N. apply n_vols_strict_stage1. now apply stage1_perm_invariant. Qed.
+
+  Lemma strict_records_perm smax recs recs' :
+    Permutation recs recs' -> NoDup (map keys recs) ->
+    option_map (fun idx => select dummy idx recs) (sorted_slice_indices true smax recs) =
+    option_map (fun idx => select dummy idx recs') (sorted_slice_indices true smax recs').
+  Proof. intros P N. apply strict_records_stage1; [assumption|now apply stage1_perm_invariant]. Qed.
 
   (* ---- lax order: unchanged when every record keeps its volume number *)
   Definition fb (smax : Z) (sn : list Z) (v : Z) : bool :=
@@ -1118,6 +1128,66 @@ Section Obs.
     res_obs (load true permit fp expd smax nlab recs) = res_obs (load true permit fp expd smax nlab recs').
   Proof.
     intros P N. apply obs_independent_gen; [assumption|now apply n_vols_strict_perm|now apply strict_records_perm].
+  Qed.
+
+  (* key tuples that are NOT pairwise distinct (V4 diffusion): the stable initial sort keeps records
+     with identical key tuples in record order, and the volumes inside a key group are numbered by
+     counting repeats in that order.  So the result can only be independent of those permutations
+     that keep, for every key tuple, the subsequence of the records carrying it. *)
+  Definition same_key (k : list Z) (r : rec) : bool := zl_eqb (keys r) k.
+
+  Lemma zl_eqb_iff a b : zl_eqb a b = true <-> a = b.
+  Proof.
+    revert b; induction a as [|x a IH]; intros [|y b]; cbn; split; intros H; try discriminate; try reflexivity.
+    - apply andb_true_iff in H. destruct H as [H1 H2]. apply Z.eqb_eq in H1. apply IH in H2. now subst.
+    - inversion H; subst. rewrite Z.eqb_refl. now apply IH.
+  Qed.
+
+  Lemma stage1_stable_invariant recs recs' :
+    (forall k, filter (same_key k) recs = filter (same_key k) recs') -> stage1 recs = stage1 recs'.
+  Proof.
+    intros H. unfold stage1.
+    apply (isort_stable_invariant rec_le (fun a b => zl_eqb (keys b) (keys a))).
+    - intros x y E. apply zl_eqb_iff in E. unfold rec_le. rewrite E. apply lex_le_refl.
+    - intros x y. destruct (zl_eqb (keys y) (keys x)) eqn:E1, (zl_eqb (keys x) (keys y)) eqn:E2; try reflexivity.
+      + apply zl_eqb_iff in E1. rewrite E1 in E2. now rewrite (proj2 (zl_eqb_iff _ _) eq_refl) in E2.
+      + apply zl_eqb_iff in E2. rewrite E2 in E1. now rewrite (proj2 (zl_eqb_iff _ _) eq_refl) in E1.
+    - intros x y z E1 E2. apply zl_eqb_iff in E1, E2. apply zl_eqb_iff. congruence.
+    - intros x. now apply zl_eqb_iff.
+    - intros x y L1 L2. apply zl_eqb_iff. symmetry. now apply key_le_antisym.
+    - intros x y z. apply key_le_trans.
+    - intros x y. apply key_le_total.
+    - intros k. apply (H (keys k)).
+  Qed.
+
+  Lemma stage1_stable recs k : filter (same_key k) (stage1 recs) = filter (same_key k) recs.
+  Proof.
+    unfold stage1, same_key.
+    destruct (filter (fun r => zl_eqb (keys r) k) recs) as [|x xs] eqn:E.
+    - (* no record with this key *)
+      assert (H : forall r, In r (isort rec_le recs) -> zl_eqb (keys r) k = false).
+      { intros r Hr. apply isort_in in Hr. destruct (zl_eqb (keys r) k) eqn:Er; [|reflexivity].
+        assert (In r (filter (fun r => zl_eqb (keys r) k) recs)) by (apply filter_In; now split).
+        rewrite E in H. destruct H. }
+      induction (isort rec_le recs) as [|y l IH]; [reflexivity|]. cbn. rewrite (H y) by now left.
+      apply IH. intros r Hr. apply H. now right.
+    - assert (Hx : In x (filter (fun r => zl_eqb (keys r) k) recs)) by (rewrite E; now left).
+      apply filter_In in Hx. destruct Hx as [_ Kx]. apply zl_eqb_iff in Kx. subst k. rewrite <- E.
+      apply (isort_filter rec_le (fun a b => zl_eqb (keys b) (keys a))).
+      + intros a b Eab. apply zl_eqb_iff in Eab. unfold rec_le. rewrite Eab. apply lex_le_refl.
+      + intros a b. destruct (zl_eqb (keys b) (keys a)) eqn:E1, (zl_eqb (keys a) (keys b)) eqn:E2; try reflexivity.
+        * apply zl_eqb_iff in E1. rewrite E1 in E2. now rewrite (proj2 (zl_eqb_iff _ _) eq_refl) in E2.
+        * apply zl_eqb_iff in E2. rewrite E2 in E1. now rewrite (proj2 (zl_eqb_iff _ _) eq_refl) in E1.
+      + intros a b c E1 E2. apply zl_eqb_iff in E1, E2. apply zl_eqb_iff. congruence.
+  Qed.
+
+  (* C20_order_independent_stable *)
+  Lemma order_independent_stable permit fp expd smax nlab recs recs' :
+    Permutation recs recs' -> (forall k, filter (same_key k) recs = filter (same_key k) recs') ->
+    res_obs (load true permit fp expd smax nlab recs) = res_obs (load true permit fp expd smax nlab recs').
+  Proof.
+    intros P H. pose proof (stage1_stable_invariant recs recs' H) as HS.
+    apply obs_independent_gen; [assumption|now apply n_vols_strict_stage1|now apply strict_records_stage1].
   Qed.
 
   (* C20_lax_order_preserving *)
